@@ -185,13 +185,14 @@ package algo
 //@ spec func occu(text *util.Chars, pattern []rune, cs bool, nz bool, s int) bool = forall(k, 0, len(pattern), foldu(cs, nz, at(text, s + k)) == pattern[k])
 
 //@ func PrefixMatch
-//@ property C02 C01 C05
+//@ property C02 C01 C05 C03
 //@ requires text != nil && validChars(text) && validRunes(pattern) && len(pattern) <= 2147483648
 //@ ensures r1 == nil
 //@ ensures len(pattern) == 0 ==> r0.Start == 0 && r0.End == 0
 //@ ensures r0.Start < 0 ==> r0.Start == -1 && r0.End == -1
 //@ ensures len(pattern) > 0 && r0.Start >= 0 ==> r0.Start == ptrim(text, pattern) && r0.End == r0.Start + len(pattern) && r0.End <= clen(text)
 //@ ensures len(pattern) > 0 ==> ((r0.Start >= 0) == (clen(text) - ptrim(text, pattern) >= len(pattern) && occu(text, pattern, caseSensitive, normalize, ptrim(text, pattern))))
+//@ ensures[C03] len(pattern) > 0 && r0.Start >= 0 ==> r0.Score == scS(text, pattern, caseSensitive, normalize, r0.Start, r0.End) -- the score is the documented score of the reported range
 //@ loop 1
 //@   invariant forall(k, 0, iter, foldu(caseSensitive, normalize, at(text, trimmedLen + k)) == pattern[k])
 //@   invariant forall(k, 0, iter, hitp(text, trimmedLen + k, pattern, k, caseSensitive, normalize))
@@ -199,13 +200,14 @@ package algo
 //@ use occ_g(text, pattern, caseSensitive, normalize, ptrim(text, pattern), len(pattern))
 
 //@ func SuffixMatch
-//@ property C02 C01 C05
+//@ property C02 C01 C05 C03
 //@ requires text != nil && validChars(text) && validRunes(pattern) && len(pattern) <= 2147483648
 //@ ensures r1 == nil
 //@ ensures len(pattern) == 0 ==> r0.Start == clen(text) - trailws(text, clen(text)) && r0.End == r0.Start
 //@ ensures r0.Start < 0 ==> r0.Start == -1 && r0.End == -1
 //@ ensures len(pattern) > 0 && r0.Start >= 0 ==> r0.End == strim(text, pattern) && r0.Start == r0.End - len(pattern)
 //@ ensures len(pattern) > 0 ==> ((r0.Start >= 0) == (strim(text, pattern) >= len(pattern) && occu(text, pattern, caseSensitive, normalize, strim(text, pattern) - len(pattern))))
+//@ ensures[C03] len(pattern) > 0 && r0.Start >= 0 ==> r0.Score == scS(text, pattern, caseSensitive, normalize, r0.Start, r0.End) -- the score is the documented score of the reported range
 //@ loop 1
 //@   invariant forall(k, 0, iter, foldu(caseSensitive, normalize, at(text, diff + k)) == pattern[k])
 //@   invariant forall(k, 0, iter, hitp(text, diff + k, pattern, k, caseSensitive, normalize))
